@@ -243,6 +243,27 @@ def gen_deferred_start(tier, rng, prefix, count):
                      workers=workers, limit=limit, autostart=0))
     return out
 
+def gen_never_started(tier, rng, prefix, count):
+    """a pool that is never started (no expansion either): a queued task whose OWN context ends (cancelled, deadline, cause)
+    while it waits is released by Stop, with the pool context's error"""
+    out = []
+    for i in range(count):
+        k = [2, 1, 3, 2][i % 4]          # ctx 2: deadline type; 3: cancelled with a cause; 1: plain cancel
+        ths = [["%s1,%d" % ("DT"[(i // 4) % 2], k), "/", "/", "R1"], ["/", "C%d" % k, "X", "/"]]
+        out.append(S("%s%d" % (prefix, i), ths, rnd(tier, rng, 60, 600), workers=rng.choice([1, 2]), limit=0, autostart=0,
+                     pooldl=rng.choice([0, 1, 2])))
+    return out
+
+def gen_many_workers(tier, rng, prefix, count):
+    """tens of thousands of fixed workers (legal): everything still starts, runs and stops; monitors only (the model replay
+    is quadratic in the number of threads)"""
+    out = []
+    for i in range(count):
+        nw = [16387, 20000, 33000][i % 3]
+        ths = [["E1", "D2,0", "R1", "R2", "X"]]
+        out.append(S("%s%d" % (prefix, i), ths, "dfs 0 1", workers=nw, limit=0, autostart=1, nomodel=1, maxsteps=3000000))
+    return out
+
 def gen_nilexec(tier, rng, prefix, count):
     """tasks WITHOUT an executor (NewTask(ctx, nil): legal) among ordinary ones - outside the model (no begin / end
     accesses to replay), judged by the monitors: accepted, one empty result, Stop returns"""
@@ -259,18 +280,20 @@ def gen_nilexec(tier, rng, prefix, count):
 def gen_c04(tier, rng):
     return (gen_basic(tier, rng, "a", scale(tier, 24, 200), stop=False) + gen_basic(tier, rng, "b", scale(tier, 16, 150), stop=True)
             + gen_saturated(tier, rng, "s", scale(tier, 8, 60)) + gen_stop(tier, rng, "x", scale(tier, 10, 80))
-            + gen_nilexec(tier, rng, "n", scale(tier, 6, 40)))
+            + gen_nilexec(tier, rng, "n", scale(tier, 6, 40)) + gen_many_workers(tier, rng, "mw", scale(tier, 0, 3)))
 
 def gen_c08(tier, rng):
     return gen_stop(tier, rng, "a", scale(tier, 30, 250)) + gen_basic(tier, rng, "b", scale(tier, 12, 100), stop=True) \
-        + gen_nilexec(tier, rng, "n", scale(tier, 6, 40))
+        + gen_nilexec(tier, rng, "n", scale(tier, 6, 40)) + gen_many_workers(tier, rng, "mw", scale(tier, 0, 3)) \
+        + gen_never_started(tier, rng, "ns", scale(tier, 4, 16))
 
 def gen_c11(tier, rng):
     return gen_expansion(tier, rng, "a", scale(tier, 24, 200)) + gen_basic(tier, rng, "b", scale(tier, 10, 80), stop=False, cancels=False)
 
 def gen_c12(tier, rng):
     return gen_race_stop(tier, rng, "a", scale(tier, 36, 300)) + gen_basic(tier, rng, "b", scale(tier, 10, 80), stop=True, starts=True) \
-        + gen_deferred_start(tier, rng, "d", scale(tier, 9, 60))
+        + gen_deferred_start(tier, rng, "d", scale(tier, 9, 60)) + gen_never_started(tier, rng, "ns", scale(tier, 8, 24)) \
+        + gen_many_workers(tier, rng, "mw", scale(tier, 0, 3))
 
 def gen_c17(tier, rng):
     return gen_saturated(tier, rng, "a", scale(tier, 24, 200)) + gen_expansion(tier, rng, "e", scale(tier, 8, 56)) \
